@@ -226,6 +226,11 @@ pub struct Movie {
     /// tracks): some muxers write 0 there, some the duration of the whole presentation
     #[serde(default)]
     pub frag_mdhd_dur: u32,
+    /// physical size beyond 4 GiB: a top-level `free` box with a 64-bit header and that many payload
+    /// bytes, placed after ftyp (0), after the second top-level box (1) or at the end (2). The
+    /// payload is not materialised (`Built::gap`, field `huge`); chunk offsets then always use co64.
+    #[serde(default)]
+    pub huge: Option<(u8, u64)>,
 }
 
 #[derive(Clone, Debug, Serialize, PartialEq, Eq)]
@@ -258,6 +263,8 @@ pub struct Built {
     /// the fragment part rendered as a stand-alone media segment (positions relative to its own
     /// start, explicit base offsets adjusted); sample offsets in it = truth offset - init_len
     pub segment: Vec<u8>,
+    /// (index into `bytes`, length): that many zero bytes belong at that index (Movie::gap)
+    pub gap: Option<(usize, u64)>,
 }
 
 // ------------------------------------------------------------------------------------------
@@ -884,16 +891,52 @@ fn compute_placement(m: &Movie, top: &[Node]) -> Placement {
     Placement { chunk_off, frag }
 }
 
+fn insert_gap(top: &mut Vec<Node>, huge: Option<(u8, u64)>) -> Option<usize> {
+    let (place, len) = huge?;
+    let at = match place {
+        0 => 1.min(top.len()),
+        1 => 2.min(top.len()),
+        _ => top.len(),
+    };
+    let mut n = Node::leaf("free", vec![]);
+    n.large = true;
+    n.parts = vec![Part::Phantom(len)];
+    top.insert(at, n);
+    Some(at)
+}
+
 pub fn build(m: &Movie) -> Built {
+    // A gap in front of the media data pushes chunk offsets beyond 32 bits; the tracks concerned
+    // then use co64 (decided here, before the sizes are fixed, because stco and co64 differ in size).
+    let forced;
+    let m = if m.huge.is_some() && m.tracks.iter().any(|t| !t.co64) {
+        let zero = Placement { chunk_off: m.tracks.iter().map(|t| vec![0; t.chunks.len()]).collect(), frag: vec![(0, 0); m.frags.len()] };
+        let (mut probe, _) = make_tree(m, &zero);
+        apply_xforms(&mut probe, &m.xforms);
+        insert_gap(&mut probe, m.huge);
+        let pl = compute_placement(m, &probe);
+        let mut c = m.clone();
+        for (ti, t) in c.tracks.iter_mut().enumerate() {
+            if pl.chunk_off[ti].iter().any(|o| *o > u32::MAX as u64 - 4096) {
+                t.co64 = true;
+            }
+        }
+        forced = c;
+        &forced
+    } else {
+        m
+    };
     // pass 1: zero placement to learn positions (box sizes do not depend on offset values, except
     // for the stco/co64 choice which only changes when offsets exceed 32 bits: never here)
     let zero = Placement { chunk_off: m.tracks.iter().map(|t| vec![0; t.chunks.len()]).collect(), frag: vec![(0, 0); m.frags.len()] };
     let (mut top0, _) = make_tree(m, &zero);
     apply_xforms(&mut top0, &m.xforms);
+    insert_gap(&mut top0, m.huge);
     let pl = compute_placement(m, &top0);
     let (mut top, init_nodes) = make_tree(m, &pl);
     // number of nodes inserted at top level before the first fragment node shifts init_nodes
     apply_xforms(&mut top, &m.xforms);
+    let gap_at = insert_gap(&mut top, m.huge);
     debug_assert_eq!(top_positions(&top), top_positions(&top0));
     let mut bytes = Vec::new();
     for n in &top {
@@ -980,7 +1023,8 @@ pub fn build(m: &Movie) -> Built {
         let media_duration = t.samples.iter().map(|s| s.dur as u64).sum();
         truth.push(TrackTruth { id: t.id, samples, media_duration });
     }
-    Built { bytes, truth, init_len, tree: top, segment }
+    let gap = gap_at.map(|i| ((top_positions(&top)[i] + 16) as usize, m.huge.map(|g| g.1).unwrap_or(0)));
+    Built { bytes, truth, init_len, tree: top, segment, gap }
 }
 
 /// expected payload bytes of sample k (0-based, counted across table samples then fragments) of track t
